@@ -704,6 +704,16 @@ func genC04(rng *rand.Rand, typ int) ACase {
 		h.Name = strings.ToLower(h.Name)
 	}
 	line := fmt.Sprintf("type=%s msg=audit(%d.%03d:%d): %s", h.Name, h.Sec, h.Ms, h.Seq, h.Body)
+	if rng.Intn(5) == 0 {
+		// white space around the text after msg= (it is trimmed), with bodies shorter than the padding
+		pad := ""
+		for k := 1 + rng.Intn(9); k > 0; k-- {
+			pad += []string{" ", " ", "\t"}[rng.Intn(3)]
+		}
+		h.Body = []string{"", "", "a", "a=b", ":", " ", h.Body}[rng.Intn(7)]
+		tail := []string{"", "", " ", "  \t", "\n"}[rng.Intn(5)]
+		line = fmt.Sprintf("type=%s msg=%saudit(%d.%03d:%d):%s%s", h.Name, pad, h.Sec, h.Ms, h.Seq, []string{" ", ""}[rng.Intn(2)]+h.Body, tail)
+	}
 	c := mkACase("line", 0, line)
 	c.Hdr = h
 	return c
